@@ -35,6 +35,7 @@ func init() {
 			ruleConstraintRegistered(c, "C03.CONSTRAINTREG")
 			ruleCreateIsCreate(c, "C03.CREATECTX")
 			ruleIndexTxState(c, "C03.TXSTATE")
+			ruleSetWalkByValidity(c, "C03.SETWALK", "boltz")
 			// a veto raised by an index (duplicate, missing value) reaches the caller of Create/Update/Delete: the
 			// holder the indexes record into is consulted after the last index step
 			ruleHolder(c, "C03.ERRREACH", c.prodFuncs("boltz"), map[string]bool{
@@ -76,6 +77,8 @@ func init() {
 			ruleUnchangedShortcut(c, "C04.UNCHANGED", []string{"fkIndex", "fkConstraint"})
 			ruleNoRemoveAfterAdd(c, "C04.PHASES", []string{"fkIndex"})
 			ruleFkDelete(c, "C04.DELETE")
+			ruleFilterOnItsStore(c, "C04.FILTERSTORE")
+			ruleFkPresenceAsked(c, "C04.ASKED")
 			ruleRawIdFilter(c, "C04.RAWID")
 			// a refusal (restrict) raised by a constraint of a child store reaches the caller
 			ruleErrorLookedAtOnEveryPath(c, "C04.LOOKEDAT", c.prodFuncs("boltz"))
@@ -92,6 +95,7 @@ func init() {
 			ruleCursorDirection(c, c.cursorTypes(), "C04.CURSORSEEK", "C04.DIRPARAM")
 			ruleSymbolKeyRoles(c, "C04.SYMKEY")
 			ruleSymbolPathKey(c, "C04.SYMPATH")
+			ruleTagOnlyNil(c, "C04.TAGONLYNIL")
 			ruleErrHolderShared(c, "C04.HOLDER")
 		},
 		Controls: []controlExpect{{"C04.INJECT", "zzControlBad_C04_INJECT", true}},
